@@ -356,6 +356,13 @@ def extra_scenarios(tier, base):
             out.append(("layout-%s-%d" % (fmt, k), {
                 "graph": gen.L(triples), "ordered": True, "bnodes": False, "target": {"all_classes_mode": True},
                 "options": {"instances_report_mode": "mixed"}, "ns": dict(gen.BASE_NS), "channels": channels}))
+            # the same boundaries, now inside a multi-byte character of a subject IRI
+            rng2 = random.Random("C08-straddle:%s:%s:%s" % (base, k, fmt))
+            sb = bounds[:7] if tier == "quick" else bounds
+            triples2 = gen.gen_aligned_graph(rng2, fmt=fmt, boundaries=sb, n_classes=rng2.randint(2, 6), straddle=True)
+            out.append(("straddle-%s-%d" % (fmt, k), {
+                "graph": gen.L(triples2), "ordered": True, "bnodes": False, "target": {"all_classes_mode": True},
+                "options": {"instances_report_mode": "mixed"}, "ns": dict(gen.BASE_NS), "channels": channels}))
     return out
 
 
